@@ -738,6 +738,10 @@ func exploreDecode(fe []mc.Val) {
 			xs = append(xs, ref.OS2IP(b))
 		}
 	}
+	// every combination of structured 64-bit words (limb-wise comparisons with a wrong operator, a skipped limb, a truncated word)
+	wp := mc.WordPatternStrings(ref.P)
+	xs = append(xs, wp...)
+	R.Class("decode/word-pattern strings (11^4)", int64(len(wp)))
 	mc.Par(len(xs), func(i int) {
 		R.T(6)
 		st(xs[i])
@@ -1027,6 +1031,15 @@ func exploreUint64() {
 		e := secp256k1.VerifFENewFromUint64(u)
 		if !bytes.Equal(e.Bytes(), ref.B32(new(big.Int).SetUint64(u))) {
 			R.Fail("field/NewElementFromUint64", "u64", map[string]any{"v": u}, nil)
+		}
+		// what a constructor returns belongs to the caller: using it as an accumulator changes neither the next
+		// object the constructor returns nor any constant the library works with (square roots use 1 internally)
+		e.Add(e, mk(big.NewInt(6)))
+		e.Multiply(e, e)
+		e2 := secp256k1.VerifFENewFromUint64(u)
+		four, ok := new(FE).Sqrt(mk(big.NewInt(16)))
+		if !bytes.Equal(e2.Bytes(), ref.B32(new(big.Int).SetUint64(u))) || ok != 1 || !(bytes.Equal(four.Bytes(), ref.B32(big.NewInt(4))) || bytes.Equal(four.Bytes(), ref.B32(new(big.Int).Sub(ref.P, big.NewInt(4))))) {
+			R.Fail("field/NewElementFromUint64 result is caller-owned", "u64", map[string]any{"v": u, "what": "after the caller modified an element returned by the constructor, the constructor (or Sqrt(16)) answers differently: the constructor hands out a shared object"}, nil)
 		}
 	}
 	// Zero / One
